@@ -54,8 +54,9 @@ def session(cfg, ops):
         f = mount(dev, offset=off)
     warned_clean = any("cleanly unmounted" in str(x.message) for x in wl)
     errs = []
+    handles = {}            # kept until the end: a session may end with file handles still open
     for op in ops:
-        got = run_op(f, op, {})
+        got = run_op(f, op, handles)
         if got[0] == "err":
             errs.append((op[0], got[1]))
     f.close()
@@ -74,6 +75,10 @@ def run(tier):
                 ops = ops[:r.randint(0, len(ops))]
             if variant == 1:
                 ops = []          # mount + close only
+            if variant >= 1 and (variant % 2 == 1 or tier == "quick"):
+                # the session ends with handles that have written and were never closed
+                ops = ops + [["open", "h1", "/LEFT.OPN", "w"], ["write", "h1", 7, 1700],
+                             ["open", "h2", "/docs2", "w"], ["write", "h2", 8, 10], ["truncate", "h2", 5000]]
             n += 1
             rep = {"suite": "marks", "cfg": cfg, "ops": ops}
             try:
@@ -82,6 +87,8 @@ def run(tier):
                 res.fail(["C11"], "marks:session-raises:" + exc_class(e), repr(e)[:200], rep)
                 continue
             res.case("cfg%d:v%d" % (ci, variant))
+            if ops and ops[-1][0] in ("write", "truncate"):
+                res.count("sessions-ending-with-open-handles")
             res.count("sessions")
             res.count("writes", len(dev.wlog))
             if n <= 2:
